@@ -251,7 +251,7 @@ Definition mm_ret1 (m : mmon) (e : list N) : option (N * N) :=
   match e with
   | [2; i; k] => match mm_ret m with
                  | Some x => Some x
-                 | None => Some (if N.eqb k 0 then 3 else 5, i + 1)
+                 | None => Some (if N.eqb k 0 then (3, i + 1) else (5, epack (k - 1) (i + 1)))
                  end
   | _ => mm_ret m
   end%N.
@@ -335,7 +335,7 @@ Proof.
   - destruct (F6 _ _ eq_refl) as (o & Ho & Go). destruct (mm_ret m) as [cv|]; cbn [retrel] in *.
     + destruct HR as (f & o1 & G & E). exists f, o1. auto.
     + exists (N.to_nat i), o. split; [exact Go|]. unfold moutcome in Ho.
-      destruct (N.eqb k 0); [inversion Ho; reflexivity|]. destruct (N.eqb k 1); inversion Ho. reflexivity.
+      destruct (N.eqb k 0); [inversion Ho; reflexivity|]. destruct (N.leb k 64); inversion Ho. reflexivity.
   - destruct (mm_ret m) as [cv|]; cbn [retrel] in *.
     + destruct HR as (f & o & G & E). exists f, o. auto.
     + apply F7; [intros; discriminate | exact HR].
